@@ -54,4 +54,8 @@ CHECKS = {
    text="Heartbeat consumer entries as independent records (node, time, active, countdown, last state, event counter); TLC checks events exactly on expiry per monitored node, chain well-formedness (armed implies active, no node monitored twice); the SDO write rules (duplicate refused with 0604 0043h, time 0 deactivates exactly the written entry, re-targeting cancels the old monitoring) are the reference the C code is compared with on every edge of the two-entry model, "
         "with a 21-step probe (heartbeats of all nodes, ticks, queries) and a 600-tick saturation run.",
    note=MC_NOTE + " Timers are abstract countdowns (assume/guarantee with C07/C08).", technique="TLA+/TLC model checking + edge-cover behaviours replayed against the C code", ref="DESIGN.md section 8, C11"),
+ "C15": dict(
+   text="CoEmcy keeps only the set of active errors and the list of recorded activations; error register and error count are derived from the active set exactly as the property defines them. TLC checks one frame per real transition (none for a silent reset, an invalid 1014h or a forbidden NMT state) over all histories of set/clear/reset/1003h/1014h/NMT letters for a 4-error table with class sharing; "
+        "every edge plus a probe (register, count, state of each error, full history read, one more activation, loud reset) and random walks with a 5-error table and depth 3 are replayed: frames with code / register / manufacturer bytes, storage change of 1001h, COEmcyCnt/COEmcyGet, SDO reads of 1003h, abort code of a non-zero write.",
+   note=MC_NOTE, technique="TLA+/TLC model checking + edge-cover behaviours replayed against the C code", ref="DESIGN.md section 8, C15"),
 }
